@@ -333,8 +333,39 @@ impl<'tcx> Dumper<'tcx> {
                         }
                     }
                 }
-                ConstValue::Indirect { .. } => {
+                ConstValue::Indirect { alloc_id, offset } => {
                     o = o.b("indirect", true);
+                    // small memory-backed constants: raw bytes plus field offsets of struct ADTs
+                    if let Ok(layout) = tcx.layout_of(tenv.as_query_input(ty)) {
+                        let size = layout.size.bytes() as usize;
+                        if size <= 64 {
+                            if let Some(mir::interpret::GlobalAlloc::Memory(alloc)) =
+                                tcx.try_get_global_alloc(alloc_id)
+                            {
+                                let a = alloc.inner();
+                                let start = offset.bytes() as usize;
+                                if start + size <= a.len() {
+                                    let b = a.inspect_with_uninit_and_ptr_outside_interpreter(start..start + size);
+                                    o = o.raw("raw", &arr(b.iter().map(|x| x.to_string())));
+                                }
+                            }
+                            if let ty::Adt(def, _) = ty.kind() {
+                                if def.is_struct() {
+                                    let v = def.non_enum_variant();
+                                    let offs: Vec<String> = (0..v.fields.len())
+                                        .map(|i| {
+                                            format!(
+                                                "[{},{}]",
+                                                jstr(v.fields[rustc_abi::FieldIdx::from_usize(i)].name.as_str()),
+                                                layout.fields.offset(i).bytes()
+                                            )
+                                        })
+                                        .collect();
+                                    o = o.raw("field_offsets", &arr(offs));
+                                }
+                            }
+                        }
+                    }
                 }
             }
         }
